@@ -21,12 +21,15 @@ Import ListNotations.
 Local Open Scope Z_scope.
 
 (** (a, algebra) CalculateNewFlags computes exactly the set algebra of the
-    three data items, for ALL current flags, ALL named flags (any bytes); the
-    result has no duplicates; [\Recent] cannot be named. *)
+    three data items on flag KEYS (flag names are case-insensitive: [fkey] =
+    ASCII upper-casing), for ALL current flags, ALL named flags (any bytes);
+    the result holds no flag twice in any spelling and only spellings that the
+    store or the client supplied; [\Recent] cannot be named in any spelling. *)
 Theorem c10_apply_exact : forall (cur new : list str) (s : str) (it : item),
   item_of s = Some it ->
-  (forall f, In f (calculate_new_flags cur new s) <-> apply_rel it cur new f)
-  /\ NoDup (calculate_new_flags cur new s).
+  (forall k, In k (keys (calculate_new_flags cur new s)) <-> apply_rel it cur new k)
+  /\ NoDup (keys (calculate_new_flags cur new s))
+  /\ (forall f, In f (calculate_new_flags cur new s) -> In f cur \/ In f new).
 Proof. exact calculate_new_flags_exact. Qed.
 Print Assumptions c10_apply_exact.
 
@@ -96,7 +99,8 @@ Theorem c10_copy_independent : forall e s o mb,
 Proof. exact store_other_mailbox_untouched. Qed.
 Print Assumptions c10_copy_independent.
 
-Theorem c10_copy_flags : forall fl f, In f (copy_flags fl) <-> In f fl \/ f = RECENT.
+Theorem c10_copy_flags : forall fl f,
+  In f (copy_flags fl) <-> In f fl \/ (f = RECENT /\ ~ In (fkey RECENT) (keys fl)).
 Proof. exact copy_flags_spec. Qed.
 Print Assumptions c10_copy_flags.
 
@@ -106,8 +110,9 @@ Theorem c10_fetch_reports_table : forall ls mb u fl,
 Proof. exact view_iff. Qed.
 Print Assumptions c10_fetch_reports_table.
 
-(** (b) SEARCH by flag, STATUS UNSEEN and [UNSEEN n] are set membership of the
-    queried flag, for every table and every key (no side condition) *)
+(** (b) SEARCH by flag, STATUS UNSEEN and [UNSEEN n] are membership of the
+    queried flag's key in the keys of the stored flags, for every table and
+    every search key (no side condition) *)
 Theorem c10_flag_queries_exact : forall ls mb k, search ls mb k = spec_search ls mb k.
 Proof. exact search_exact. Qed.
 Print Assumptions c10_flag_queries_exact.
@@ -177,3 +182,12 @@ Example c10_fixed_substring :
   key_holds (KHas JUNK) fl = false /\ key_holds (KHas SEEN) fl = false
   /\ unseen_count [mkLink 1 1 1 fl] 1 = 1 /\ first_unseen [mkLink 1 1 1 fl] 1 = Some 1.
 Proof. exact fixed_substring. Qed.
+
+Example c10_fixed_flag_case :
+  calculate_new_flags [SEEN; S_ "kw"] [S_ "\seen"; S_ "KW"; S_ "\recent"] IT_ADD = [SEEN; S_ "kw"]
+  /\ calculate_new_flags [SEEN; S_ "kw"] [S_ "\seen"] IT_DEL = [S_ "kw"]
+  /\ calculate_new_flags [] [S_ "\Seen"; S_ "\seen"; S_ "\SEEN"] IT_FLAGS = [S_ "\Seen"]
+  /\ view (links (run env0 st0 [OAppend 1 [S_ "\deleted"]; OAppend 1 [S_ "\DeletedX"]; OExpunge false 1])) 1 = [(2, [S_ "\DeletedX"])]
+  /\ unseen_count [mkLink 1 1 1 [S_ "\seen"]; mkLink 2 1 2 [S_ "\Seenish"]] 1 = 1
+  /\ copy_flags [S_ "\recent"] = [S_ "\recent"].
+Proof. exact fixed_flag_case. Qed.
